@@ -395,3 +395,67 @@ func VerifC08_Tables() {
 	}
 	verifrt.Reached("end")
 }
+
+// Singleton resources (acl, keyring, operator, mesh, peering): across the token's policies deny overrides
+// write overrides read; with no rule the default policy decides; the order of the policies is irrelevant.
+func VerifC08_Singletons() {
+	levels := []string{"", PolicyRead, PolicyWrite, PolicyDeny}
+	kind := verifrt.Choice("kind", 5)
+	l0 := levels[verifrt.Choice("p0.level", 4)]
+	l1 := levels[verifrt.Choice("p1.level", 4)]
+	mk := func(l string) *Policy {
+		p := &Policy{}
+		switch kind {
+		case 0:
+			p.ACL = l
+		case 1:
+			p.Keyring = l
+		case 2:
+			p.Operator = l
+		case 3:
+			p.Mesh = l
+		case 4:
+			p.Peering = l
+		}
+		return p
+	}
+	best := l0
+	if vRank(l1) > vRank(best) {
+		best = l1
+	}
+	for _, order := range [][]*Policy{{mk(l0), mk(l1)}, {mk(l1), mk(l0)}} {
+		allowDef, denyDef := vAuthzBoth(order)
+		for di, a := range []Authorizer{allowDef, denyDef} {
+			def := Deny
+			if di == 0 && kind != 0 {
+				// (ACL management is never granted by the default policy, only by an explicit rule or a management token)
+				def = Allow
+			}
+			var rd, wr EnforcementDecision
+			switch kind {
+			case 0:
+				rd, wr = a.ACLRead(nil), a.ACLWrite(nil)
+			case 1:
+				rd, wr = a.KeyringRead(nil), a.KeyringWrite(nil)
+			case 2:
+				rd, wr = a.OperatorRead(nil), a.OperatorWrite(nil)
+			case 3:
+				rd, wr = a.MeshRead(nil), a.MeshWrite(nil)
+			case 4:
+				rd, wr = a.PeeringRead(nil), a.PeeringWrite(nil)
+			}
+			wantRd, wantWr := def, def
+			switch best {
+			case PolicyRead:
+				wantRd, wantWr = Allow, Deny
+			case PolicyWrite:
+				wantRd, wantWr = Allow, Allow
+			case PolicyDeny:
+				wantRd, wantWr = Deny, Deny
+			}
+			verifrt.Assert("C08.singleton.read-matches-rule-semantics", rd == wantRd)
+			verifrt.Assert("C08.singleton.write-matches-rule-semantics", wr == wantWr)
+		}
+	}
+	verifrt.Reached("end")
+}
